@@ -18,6 +18,8 @@ ASSUMPTIONS = [
     "MOR maximal number of remaining operations of the job, where 'remaining' may be read as unscheduled or as unscheduled+ongoing "
     "(selected must be best under one of the two readings); scores of composed rules are the ones the rule actually received "
     "(scoring functions wrapped by recorders)",
+    "wide sub-spaces: 10 jobs (job ids up to 9), every pair of jobs with 3 operations and the rest with 1, TWO shared symbolic durations "
+    "(long jobs' operations / short jobs' operations) - ties everywhere, the orderings of k*a vs b are the paths",
     "warm/preobs sub-spaces call solve(instance, dispatcher) with a caller-supplied dispatcher that is already partly dispatched (every "
     "prefix) or already carries IsReady/Duration observers restricted to operation features",
     "available operations are taken from the dispatcher (their correctness is C05/C07); the rule is wrapped by a checking callable and "
@@ -35,7 +37,8 @@ def bounds(tier):
     if tier == "quick":
         return ("5 named rules + observer-based MWKR: ordered shapes <=3 jobs <=4 ops (5 single-score rules: <=3 ops and (2,2)), all assignments M<=2, filters "
                 "{none, default pair}, chooser first; flexible M<=2 on <=3 ops with choosers {first, random}; 20 ordered score pairs with "
-                "tie-breaking on shapes <=3 ops and (2,2) M<=2, filters {none, default pair}")
+                "tie-breaking on shapes <=3 ops and (2,2) M<=2, filters {none, default pair}; wide: 10 jobs, 45 pairs of 3-operation jobs, 2 shared "
+                "symbolic durations, MWKR direct+observer-based")
     return "quick + all rules x 7 filter settings on <=4 ops; tie-breaker pairs on 4 ops; named rules on 5 ops M<=3 up to renaming"
 
 
@@ -62,6 +65,7 @@ def subspaces(tier):
                     ("tie", ["most_operations_remaining_score", "shortest_processing_time_score"])):
         out += C.structure_subspaces(s3 + [(2, 2)], 2, False, canonical=True, rule=[kind, r], chooser="first", filter="default_pair", warm=True)
         out += C.structure_subspaces(s3 + [(2, 2)], 2, False, canonical=True, rule=[kind, r], chooser="first", filter="none", preobs=True)
+    out += wide_subspaces(tier)
     tie_shapes = s3 + [(2, 2)] if tier == "quick" else s4
     for f in filters[:2]:
         for kind, r in rule_configs():
@@ -74,7 +78,29 @@ def subspaces(tier):
     return out
 
 
+def wide_subspaces(tier):
+    """Wide instances (10 jobs, so job ids >= 8 occur): jobs i<j have 3 operations, the others 1; two shared symbolic
+    durations (one for the long jobs' operations, one for the short ones), so ties are everywhere and paths few."""
+    out = []
+    rules = [("named", "most_work_remaining"), ("observer_mwkr", None)]
+    if tier == "thorough":
+        rules += [("named", r) for r in NAMED[:2] + NAMED[3:4]] + [("tie", ["most_operations_remaining_score", "most_work_remaining_score"])]
+    for i in range(10):
+        for j in range(i + 1, 10):
+            shape = [3 if x in (i, j) else 1 for x in range(10)]
+            machines, share = [], []
+            for x, n in enumerate(shape):
+                for p_ in range(n):
+                    machines.append([p_ % 2])
+                    share.append(0 if n == 3 else 1)
+            for kind, r in rules:
+                out.append(dict(shape=shape, machines=machines, share=share, rule=[kind, r], chooser="first", filter="none"))
+    return out
+
+
 def cost(sp):
+    if sp.get("share"):
+        return 64
     n = sum(sp["shape"])
     return (2 ** n) * (3 if sp["rule"][0] == "tie" else 1)
 
@@ -164,7 +190,7 @@ def harness(eng, sp):
 
 
 def _harness(eng, sp, Dispatcher, DispatchingRuleSolver, machine_chooser_factory, R):
-    inst, desc = D.build_instance(eng, sp["shape"], sp["machines"], dmin=0)
+    inst, desc = D.build_instance(eng, sp["shape"], sp["machines"], dmin=0, share=sp.get("share"))
     kind, r = sp["rule"]
     recorder = []
     rule = get_rule(kind, r, recorder)
